@@ -55,8 +55,11 @@ ASSUMPTIONS = [
     "timing dependent by design); tasks carry limits over resources r0, r1, g",
     "handle workflows: main() creates handles and passes them to sibling jobs use(h, b) / use(step(h, a), b) whose other argument is "
     "a constant or slow(b); handle sources: one shared handle, a handle per lane, an explicit fork h.fork('k')",
-    "fork_thread workflows: main() = cond(fork_thread(A), B, B) with A, B calls into a handle-free workflow; main is the root job",
-    "limit configurations: every resource 100 (unlimited), every resource 1 (fully serial when every task uses resource g), random 1-3",
+    "fork_thread workflows: main() = cond(fork_thread(A), B, B) with B a call into a handle-free workflow and A a call of a task that "
+    "calls nothing (one forked job: it has ended, or it has not, when main resolves); main is the root job",
+    "limit configurations: every resource 100 (unlimited), every resource at the largest single-job demand (1 unless a task asks for 2: "
+    "fully serial when every task uses resource g), random 1-3 but never below that demand (a limit below a job's demand can never be "
+    "met: C09's domain)",
     "compared: result, CallNode / Argument pre-images, CallEdge (parent, child) pairs; not compared (allowed to differ by the property): "
     "timestamps, job ids, call_order of edges, which duplicate job was marked cached",
 ]
@@ -169,8 +172,14 @@ def tup(x):
 def gen_flow(rng, serial=False):
     n = rng.choice([3, 4, 4, 5, 6])
     bodies = [None] * n
+
+    def ncalls(t):
+        return (1 if t[0] == "call" else 0) + sum(ncalls(x) for x in t[1:] if isinstance(x, tuple))
     for i in reversed(range(n)):
-        bodies[i] = gen_tm(rng, i, n, rng.choice([1, 2, 2, 3]))
+        for _ in range(20):
+            bodies[i] = gen_tm(rng, i, n, rng.choice([1, 2, 2, 3]))
+            if i > 0 or ncalls(bodies[i]) >= 2:          # the root job has at least two children
+                break
     limits = []
     for i in range(n):
         r = rng.random()
@@ -187,7 +196,7 @@ def gen_flow(rng, serial=False):
 class Env:
     def __init__(self):
         import ctl_sched
-        self.dir = tempfile.mkdtemp(prefix="c07-")
+        self.dir = tempfile.mkdtemp(prefix="c07-", dir=("/dev/shm" if os.access("/dev/shm", os.W_OK) else None))   # sqlite commits: tmpfs if there is one
         self.n = 0
         self.template = os.path.join(self.dir, "empty.db")
         s = ctl_sched.make_scheduler(None, db_uri="sqlite:///" + self.template)
@@ -333,7 +342,7 @@ def run_once(env, expr_fn, limits_cfg, ctl, task_ids, handle_ids, taps=None):
         sched._resolve_job_main_thread = resolve_tap
         status, payload = ctl.run(sched, expr_fn())
         if status == "ok":
-            val = str(payload) if isinstance(payload, int) and not isinstance(payload, bool) else "?" + type(payload).__name__
+            val = "i%d" % payload if isinstance(payload, int) and not isinstance(payload, bool) else "?" + type(payload).__name__
             rows = read_rows(sched, log, task_ids(), handle_ids)
         else:
             val = status + ":" + (type(payload).__name__ if status == "err" else str(payload)[:60])
@@ -368,10 +377,22 @@ def enumerate_schedules(run_with, cap):
     return
 
 
-def limit_configs(rng, thorough):
-    cfgs = [("unlimited", {r: 100 for r in RES}), ("serial", {r: 1 for r in RES})]
+def demand(limit_opts):
+    """largest amount of each resource a single job asks for (a configured limit below it can never be met: C09's domain)"""
+    d = {r: 1 for r in RES}
+    for l in limit_opts:
+        if isinstance(l, list):
+            l = {r: 1 for r in l}
+        for r, n in (l or {}).items():
+            d[r] = max(d[r], n)
+    return d
+
+
+def limit_configs(rng, thorough, limit_opts):
+    d = demand(limit_opts)
+    cfgs = [("unlimited", {r: 100 for r in RES}), ("serial", dict(d))]
     for k in range(2 if thorough else 1):
-        cfgs.append(("random%d" % k, {r: rng.choice([1, 1, 2, 3]) for r in RES}))
+        cfgs.append(("random%d" % k, {r: max(d[r], rng.choice([1, 1, 2, 3])) for r in RES}))
     return cfgs
 
 
@@ -451,7 +472,7 @@ def check_flow(ctx, env, flow, label, thorough):
 
     q = "graph " + sx([Raw("tbl")] + flow.tbl()) + " " + sx([Raw("root"), 0, flow.root_arg])
     return explore(ctx, env, label, "handle-free", flow.to_json(), lambda: mod.t0(flow.root_arg), task_ids, {},
-                   lambda obs: q, limit_configs(ctx.rng, thorough), cap=(60 if thorough else 14), nrandom=(12 if thorough else 4),
+                   lambda obs: q, limit_configs(ctx.rng, thorough, flow.limits), cap=(60 if thorough else 14), nrandom=(12 if thorough else 4),
                    classify=lambda a, b: SIG_NEW)
 
 
@@ -558,7 +579,7 @@ def check_hflow(ctx, env, hf, label, thorough, recount, witness=None):
             return SIG_REENTRY
         return SIG_ORDER if hf.shared_by_several() else SIG_NEW
 
-    cfgs = limit_configs(ctx.rng, thorough)
+    cfgs = limit_configs(ctx.rng, thorough, [hf.use_limits, hf.slow_limits])
     if witness == SIG_ORDER:
         # the witness: replayed once, accounted once
         runs = []
@@ -577,7 +598,7 @@ def check_hflow(ctx, env, hf, label, thorough, recount, witness=None):
                          what="use(h, slow(10)) / use(h, slow(11)) get the handle forks 1/2 or 2/1 depending on which slow() finishes first")
         return runs
     return explore(ctx, env, label, "handles", hf.to_json(), lambda: mod.main(), task_ids, handle_ids, model_for, cfgs,
-                   cap=(40 if thorough else 10), nrandom=(10 if thorough else 3), classify=classify)
+                   cap=(40 if thorough else 6), nrandom=(10 if thorough else 2), classify=classify)
 
 
 # ------------------------------------------------------------------------------------------- fork_thread workflows
@@ -621,7 +642,7 @@ def check_fork(ctx, env, flow, a_call, b_call, label, thorough, witness=False):
                          what="main() = cond(fork_thread(slow(7)), other(3), other(3)): main's call hash lists slow(7) only when it finished first")
         return outs
     return explore(ctx, env, label, "fork_thread", spec, lambda: mod.main(), task_ids, {}, model_for,
-                   limit_configs(ctx.rng, thorough)[:2], cap=(30 if thorough else 8), nrandom=(8 if thorough else 2),
+                   limit_configs(ctx.rng, thorough, flow.limits)[:2], cap=(30 if thorough else 8), nrandom=(8 if thorough else 2),
                    classify=lambda a, b: SIG_FORK if a["obs"].get("seen") != b["obs"].get("seen") else SIG_NEW)
 
 
@@ -684,7 +705,9 @@ def run(ctx):
             else:
                 fl = gen_flow(rng)
                 n = len(fl.bodies)
-                a = (rng.randrange(n), rng.choice([0, 1, 2]))
+                # the forked call is a single job (a task whose body calls nothing): it has ended or it has not when main resolves
+                leaves = [i for i in range(n) if "call" not in json.dumps(fl.bodies[i])]
+                a = (rng.choice(leaves), rng.choice([0, 1, 2]))
                 b = (rng.randrange(n), rng.choice([3, 4]))
                 check_fork(ctx, env, fl, a, b, "fork%d" % k, thorough)
             k += 1
